@@ -46,7 +46,7 @@ func (p *SendForm) String() string {
 	buf.WriteString("send ")
 	buf.WriteString(p.to_c.String())
 	buf.WriteString("<")
-	buf.WriteString(p.payload_c.String())
+	buf.WriteString(afterAngleBracket(p.payload_c))
 	buf.WriteString(",")
 	buf.WriteString(p.continuation_c.String())
 	buf.WriteString(">")
@@ -109,7 +109,7 @@ func NewReceive(payload_c, continuation_c, from_c Name, continuation_e Form) *Re
 func (p *ReceiveForm) String() string {
 	var buf bytes.Buffer
 	buf.WriteString("<")
-	buf.WriteString(p.payload_c.String())
+	buf.WriteString(afterAngleBracket(p.payload_c))
 	buf.WriteString(",")
 	buf.WriteString(p.continuation_c.String())
 	buf.WriteString("> <- recv ")
@@ -122,7 +122,7 @@ func (p *ReceiveForm) String() string {
 func (p *ReceiveForm) StringShort() string {
 	var buf bytes.Buffer
 	buf.WriteString("<")
-	buf.WriteString(p.payload_c.String())
+	buf.WriteString(afterAngleBracket(p.payload_c))
 	buf.WriteString(",")
 	buf.WriteString(p.continuation_c.String())
 	buf.WriteString("> <- recv ")
@@ -178,7 +178,7 @@ func (p *SelectForm) String() string {
 	buf.WriteString(".")
 	buf.WriteString(p.label.String())
 	buf.WriteString("<")
-	buf.WriteString(p.continuation_c.String())
+	buf.WriteString(afterAngleBracket(p.continuation_c))
 	buf.WriteString(">")
 	return buf.String()
 }
@@ -234,7 +234,7 @@ func (p *BranchForm) String() string {
 	var buf bytes.Buffer
 	buf.WriteString(p.label.String())
 	buf.WriteString("<")
-	buf.WriteString(p.payload_c.String())
+	buf.WriteString(afterAngleBracket(p.payload_c))
 	buf.WriteString("> => ")
 	buf.WriteString(p.continuation_e.String())
 	return buf.String()
@@ -244,7 +244,7 @@ func (p *BranchForm) StringShort() string {
 	var buf bytes.Buffer
 	buf.WriteString(p.label.String())
 	buf.WriteString("<")
-	buf.WriteString(p.payload_c.String())
+	buf.WriteString(afterAngleBracket(p.payload_c))
 	buf.WriteString("> => ...")
 	return buf.String()
 }
@@ -544,7 +544,7 @@ func NewSplit(channel_one, channel_two, from_c Name, continuation_e Form) *Split
 func (p *SplitForm) String() string {
 	var buf bytes.Buffer
 	buf.WriteString("<")
-	buf.WriteString(p.channel_one.String())
+	buf.WriteString(afterAngleBracket(p.channel_one))
 	buf.WriteString(",")
 	buf.WriteString(p.channel_two.String())
 	buf.WriteString("> <- split ")
@@ -557,7 +557,7 @@ func (p *SplitForm) String() string {
 func (p *SplitForm) StringShort() string {
 	var buf bytes.Buffer
 	buf.WriteString("<")
-	buf.WriteString(p.channel_one.String())
+	buf.WriteString(afterAngleBracket(p.channel_one))
 	buf.WriteString(",")
 	buf.WriteString(p.channel_two.String())
 	buf.WriteString("> <- split ")
@@ -719,7 +719,7 @@ func (p *CastForm) String() string {
 	buf.WriteString("cast ")
 	buf.WriteString(p.to_c.String())
 	buf.WriteString("<")
-	buf.WriteString(p.continuation_c.String())
+	buf.WriteString(afterAngleBracket(p.continuation_c))
 	buf.WriteString(">")
 	return buf.String()
 }
@@ -1195,6 +1195,17 @@ func (label1 *Label) Equal(label2 Label) bool {
 }
 
 // Utility functions
+
+// Prints a name that directly follows '<'. A negative polarity annotation is set apart by a
+// space, since '<-' would otherwise be read as the arrow token
+func afterAngleBracket(name Name) string {
+	str := name.String()
+	if len(str) > 0 && str[0] == '-' {
+		return " " + str
+	}
+
+	return str
+}
 
 // Add name to fn list, excluding ones with IsSelf: true
 func appendIfNotSelf(name Name, fn []Name) []Name {
